@@ -26,6 +26,11 @@ def base_programs():
     P.append([defr("tmp", 19), instr("mov", E(sym("tmp")), R(0)), instr("inc", E(sym("tmp"))), undef("tmp"), instr("nop", lab="l1"),
               line("if", e=binop(">", sym("k2"), lit(3))), instr("brne", E(sym("l1"))), line("endif"), equ("k3", 2), instr("subi", R(17), E(sym("k3")))])
     P[3].insert(0, equ("k2", 4))
+    # programs with one line at fault: wherever the cut puts that line, the build fails as the pasted text does
+    P.append([instr("nop"), equ("k5", 1), line("device", n="ATnothing"), instr("ldi", R(16), E(sym("k5"))), data(1, E(1), E(2)), instr("ret")])
+    P.append([line("device", n="ATtiny13"), instr("nop"), setv("v5", 2), line("device", n="ATmega48"), data(2, E(sym("v5"))), instr("ret")])
+    P.append([instr("nop", lab="top"), instr("ldi", R(16), E(sym("nowhere5"))), line("message", txt="seen"), instr("rjmp", E(sym("top")))])
+    P.append([line("device", n="ATtiny13"), instr("nop"), instr("jmp", E(0)), instr("ret"), data(1, E(7))])
     return P
 
 
